@@ -13,6 +13,7 @@ import g1
 import symx
 
 PROPERTY = 'C02'
+THOROUGH_EXTRA = 40
 
 
 def _post_order(node, out):
@@ -161,7 +162,7 @@ def subharnesses(tier):
 
 
 def budget(tier, name):
-    return 400.0 if tier == 'quick' else 1500.0
+    return 400.0 if tier == 'quick' else 600.0
 
 
 def _step(S, spec):
